@@ -34,23 +34,42 @@ type vp9Frame struct {
 	height       int
 	colorSpace   int
 	hdrBits      int
+	// the remaining header fields, kept so that a sibling frame can repeat them
+	showFrame, errRes, deep, colorRange, subX, subY int
 }
 
 // genVP9Frame writes an uncompressed header (profiles 0-3, key / non-key, all colour
 // spaces, 16-bit sizes over the full range) followed by drawn bytes, total size drawn
 // around the mtu thresholds.
-func genVP9Frame(t *core.Tape, mtu int) vp9Frame {
+func genVP9Frame(t *core.Tape, mtu int) vp9Frame { return genVP9FrameLike(t, mtu, nil) }
+
+// genVP9FrameLike: with base != nil the frame is a SIBLING of base — a key frame with the same
+// header fields except one (a dimension one off, a flipped low bit, another subsampling) — so that
+// consecutive frames share long header prefixes (anything keyed on "the header looks the same").
+func genVP9FrameLike(t *core.Tape, mtu int, base *vp9Frame) vp9Frame {
 	var f vp9Frame
 	w := &bitWriter{}
 	f.profile = t.Intn(4)
 	f.key = !t.Chance(2, 3) // the zero tape gives a key frame (the richer case)
+	sib := base != nil && base.key && !base.showExisting
+	tweak := -1
+	if sib {
+		f.profile, f.key = base.profile, true
+		tweak = t.Intn(6)
+	}
+	pick := func(drawn, from int) int {
+		if sib {
+			return from
+		}
+		return drawn
+	}
 	w.put(2, 2)             // frame_marker
 	w.put(uint64(f.profile&1), 1)
 	w.put(uint64(f.profile>>1), 1)
 	if f.profile == 3 {
 		w.put(0, 1) // reserved_zero
 	}
-	if t.Chance(1, 10) {
+	if !sib && t.Chance(1, 10) {
 		// show_existing_frame = 1, frame_to_show_map_idx f(3): the frame consists of this header only
 		w.put(1, 1)
 		w.put(uint64(t.Intn(8)), 3)
@@ -68,23 +87,31 @@ func genVP9Frame(t *core.Tape, mtu int) vp9Frame {
 	} else {
 		w.put(1, 1)
 	}
-	w.put(uint64(t.Intn(2)), 1) // show_frame
-	w.put(uint64(t.Intn(2)), 1) // error_resilient_mode
+	f.showFrame = pick(t.Intn(2), ifBase(base).showFrame)
+	f.errRes = pick(t.Intn(2), ifBase(base).errRes)
+	w.put(uint64(f.showFrame), 1) // show_frame
+	w.put(uint64(f.errRes), 1)    // error_resilient_mode
 	if f.key {
 		w.put(0x49, 8)
 		w.put(0x83, 8)
 		w.put(0x42, 8)
+		f.deep = pick(t.Intn(2), ifBase(base).deep)
 		if f.profile >= 2 {
-			w.put(uint64(t.Intn(2)), 1) // ten_or_twelve_bit
+			w.put(uint64(f.deep), 1) // ten_or_twelve_bit
 		}
-		f.colorSpace = t.Intn(8)
+		f.colorSpace = pick(t.Intn(8), ifBase(base).colorSpace)
 		w.put(uint64(f.colorSpace), 3)
+		f.colorRange = pick(t.Intn(2), ifBase(base).colorRange)
+		f.subX, f.subY = pick(t.Intn(2), ifBase(base).subX), pick(t.Intn(2), ifBase(base).subY)
+		if tweak == 4 {
+			f.subY ^= 1
+		}
 		if f.colorSpace != 7 {
-			w.put(uint64(t.Intn(2)), 1) // color_range
+			w.put(uint64(f.colorRange), 1) // color_range
 			if f.profile == 1 || f.profile == 3 {
-				w.put(uint64(t.Intn(2)), 1) // subsampling_x
-				w.put(uint64(t.Intn(2)), 1) // subsampling_y
-				w.put(0, 1)                 // reserved_zero
+				w.put(uint64(f.subX), 1) // subsampling_x
+				w.put(uint64(f.subY), 1) // subsampling_y
+				w.put(0, 1)              // reserved_zero
 			}
 		} else if f.profile == 1 || f.profile == 3 {
 			w.put(0, 1) // reserved_zero
@@ -103,6 +130,29 @@ func genVP9Frame(t *core.Tape, mtu int) vp9Frame {
 			return 1 + t.Intn(65536)
 		}
 		f.width, f.height = dim(), dim()
+		if sib {
+			f.width, f.height = base.width, base.height
+			adj := func(v, d int) int {
+				v += d
+				if v < 1 {
+					v = 2
+				}
+				if v > 65536 {
+					v = 65535
+				}
+				return v
+			}
+			switch tweak {
+			case 0:
+				f.height = adj(f.height, 1)
+			case 1:
+				f.height = adj(f.height, -1)
+			case 2:
+				f.width = adj(f.width, []int{1, -1, 256, -256}[t.Intn(4)])
+			case 3:
+				f.height = ((f.height - 1) ^ (1 << uint(t.Intn(16)))) + 1
+			}
+		}
 		w.put(uint64(f.width-1), 16)
 		w.put(uint64(f.height-1), 16)
 	}
@@ -120,6 +170,13 @@ func genVP9Frame(t *core.Tape, mtu int) vp9Frame {
 	}
 	f.data = append(w.b, t.Bytes(size-len(w.b))...)
 	return f
+}
+
+func ifBase(b *vp9Frame) *vp9Frame {
+	if b == nil {
+		return &vp9Frame{}
+	}
+	return b
 }
 
 // ---- VP9 RTP payload descriptor: independent writer --------------------------------
